@@ -520,16 +520,18 @@ func (in *interp) callSSA(caller *frame, callpos token.Pos, fn *ssa.Function, ar
 	if cfg.isHolePkg(path) {
 		return in.holeResult(fn.Signature.Results())
 	}
-	if fn.Blocks == nil {
-		if fn.Pkg != nil {
-			fn.Pkg.Build()
-		}
-		if fn.Blocks == nil {
-			unsupported("no code for function %s", name)
-		}
-	}
 	if !cfg.mayInterpret(path) {
 		unsupported("call into package %q (function %s) which is neither modelled nor whitelisted for interpretation", path, name)
+	}
+	// function bodies of dependency packages are built lazily; Build is
+	// idempotent and blocks until a concurrent build has completed
+	if fn.Pkg != nil {
+		fn.Pkg.Build()
+	} else if o := fn.Origin(); o != nil && o.Pkg != nil {
+		o.Pkg.Build()
+	}
+	if fn.Blocks == nil {
+		unsupported("no code for function %s", name)
 	}
 	in.noteFunc(fn)
 	if fn.TypeParams().Len() > 0 && len(fn.TypeArgs()) == 0 {
